@@ -5,8 +5,11 @@
 # worktree of /repo (never to /repo itself), runs the named checks on it and
 # prints DETECTED / MISSED per (mutant, check). The scratch worktree is removed.
 cd "$(dirname "$0")/.."
-MAP=${1:-mutants/MAP.tsv}; TIER=${2:-quick}
+MAP=$(realpath ${1:-mutants/MAP.tsv}); TIER=${2:-quick}
 T=$(mktemp -d /tmp/mutwt.XXXXXX)
+# run from a snapshot of the framework so that edits made meanwhile do not
+# disturb (or break the build of) a long sweep
+mkdir "$T/verif"; rsync -a --exclude bin --exclude evidence --exclude .git ./ "$T/verif/"; cd "$T/verif"
 git -C /repo worktree add --detach "$T/w" HEAD >/dev/null 2>&1 || exit 2
 trap 'git -C /repo worktree remove --force "$T/w"; rm -rf "$T"' EXIT
 while read -r NAME IDS; do
